@@ -39,7 +39,7 @@ Check(r) ==
     [] r.fn = "cleanup" ->
          LET outs == Cleanup(S, r.b[1], r.b[2], r.b[3], r.b[4], r.b[5]) IN
          << <<"cleanup.guarantees", r.res # "ok" \/ CleanupGuarantees(R, r.b[1], r.b[2], r.b[3], r.b[4], r.b[5])>>,
-            <<"cleanup.exact", \E o \in outs : IF o.res = "ok" THEN r.res = "ok" /\ MatchUpToUid(o.st, R)
+            <<"cleanup.exact", \E o \in outs : IF o.res = "ok" THEN r.res = "ok" /\ MatchUpToUid(AlignEdges(o.st, R, r.b[5]), R)
                                                ELSE r.res = o.res>> >>
 
 Verdict(r) ==
